@@ -65,6 +65,13 @@ def build_tree(d, levels):
         paths.append(cur)
         for name in DIRECTORIES.get(lv["placement"], []):
             os.makedirs(os.path.join(cur, name), exist_ok=True)
+        # version-control and project markers mean nothing to the search: half of the levels carry some
+        if (k + len(lv["placement"])) % 2 == 0:
+            for name in ([".git", ".hg"], [".svn", "_darcs", ".bzr"], [".git", "Cargo.toml", "package.json"])[k % 3]:
+                if name.startswith(".") or name.startswith("_"):
+                    os.makedirs(os.path.join(cur, name), exist_ok=True)
+                else:
+                    open(os.path.join(cur, name), "w").close()
         if lv["placement"] == "devnull":
             os.symlink("/dev/null", os.path.join(cur, "justfile"))
             continue
@@ -240,7 +247,7 @@ def run(report):
     report.coverage.update({
         "evaluations": len(cases),
         "distinct_nontrivial": len(distinct),
-        "rule": "random sample of: directory chains of depth %d x per-level candidate placement {none, justfile, .justfile, JUSTFILE, .Justfile, .JUSTFILE%s, both names, both names in mixed case%s, a directory named justfile, a symbolic link named justfile to /dev/null} x (knows recipe, set fallback) x invocation level x form {just r, just REL/r from an ancestor, just ../r, --justfile, --justfile + --working-directory, just NAME=a/b r, just DIR/r with a DIR that does not exist or is a regular file}; distinct = distinct (case, outcome)" % (
+        "rule": "random sample of: directory chains of depth %d x per-level candidate placement {none, justfile, .justfile, JUSTFILE, .Justfile, .JUSTFILE%s, both names, both names in mixed case%s, a directory named justfile, a symbolic link named justfile to /dev/null} x version-control / project marker entries on half of the levels x (knows recipe, set fallback) x invocation level x form {just r, just REL/r from an ancestor, just ../r, --justfile, --justfile + --working-directory, just NAME=a/b r, just DIR/r with a DIR that does not exist or is a regular file}; distinct = distinct (case, outcome)" % (
             3 if tier == "quick" else 4, "", ", two case variants of one name"),
         "samples": samples,
         "traces_validated_against_impl": len(cases),
